@@ -4,10 +4,13 @@ import facts
 
 ID = "C03"
 PROP = {
-    "modules": ["Gnmi.Props.C03"],
+    "modules": ["Gnmi.Props.C03", "Gnmi.Props.C03Sim"],
     "theorems": ["Gnmi.C03." + t for t in [
         "withheld_only_if", "atomic_unit", "delete_events", "delete_event_path",
-        "dispatch_single_upd", "dispatch_single_del", "multiUpdates_round"]],
+        "dispatch_single_upd", "dispatch_single_del", "multiUpdates_round",
+        "feed_simulation", "history_never_panics", "feed_replay_exact", "feed_replay_values", "feed_replay_same_when_differs"]] + [
+        "Gnmi.Feed.gnmiUpdate_sim", "Gnmi.Feed.dispatch_sim", "Gnmi.Feed.GT.delete", "Gnmi.Feed.GT.set", "Gnmi.Feed.GT.suppress",
+        "Gnmi.Feed.valueEqual_trans"],
     "components": [ca_component("", 2000, 30000)],
     "monitor": "spec", "level": "proof",
     "trusted_base": CACHE_TB + ["the replay monitor (feed events applied by the harness itself to a view, compared with Cache.Query) is part of the harness"],
@@ -16,17 +19,24 @@ PROP = {
         "compared with the model but not with the replay monitor",
     ],
     "manifest": {
-        "level_text": "Lean 4 theorems over the cache model: an update is withheld from the feed only if rejected or (event-driven on, plain leaf, "
-                      "value unchanged) and what is fed is the notification itself (withheld_only_if); atomic notifications are stored and fed as "
-                      "one unit (atomic_unit); each removed leaf yields exactly one delete event built from its own notification whose announced "
-                      "path is the leaf's index (delete_events, delete_event_path); one round of the multi-update loops is the single-notification "
-                      "arm (dispatch_single_*, multiUpdates_round). The replay equivalence itself (applying the feed reproduces Query at every "
-                      "quiescent point, also with shared prefix objects and re-sent notification objects) is checked on every run by a model-independent "
-                      "monitor in the harness over generated histories, and the model is tied to the code by the ca correspondence; "
-                      "the general simulation theorem is stated in DESIGN and not yet proved in Lean (partial).",
-        "level_note": "Trusted: Lean kernel; model validated by the ca correspondence; harness replay monitor; Go runtime. Partial: the whole-history "
-                      "simulation theorem feed_simulation is validated by the monitor, not yet kernel-checked.",
-        "technique": "Lean 4 proof of the per-step feed laws + model/implementation correspondence with aliasing generators + model-independent feed-replay monitor",
+        "level_text": "Lean 4 theorems over the cache model. Per step: an update is withheld from the feed only if rejected or (event-driven on, "
+                      "plain leaf, value unchanged) and what is fed is the notification itself (withheld_only_if); atomic notifications are stored and "
+                      "fed as one unit (atomic_unit); each removed leaf yields exactly one delete event built from its own notification whose announced "
+                      "path is the leaf's index (delete_events, delete_event_path). Whole histories: feed_simulation — for every history of "
+                      "notifications of any shape (single, multi-update, atomic, wildcard deletes, metadata-addressed, stale/future/colliding), any clock "
+                      "readings and any configuration, the view that applies the emitted events with the replay rule of the property (update sets a leaf, "
+                      "atomic update replaces its subtree, delete removes what it matches) agrees with the cache leaf by leaf; feed_replay_exact — with "
+                      "event-driven emulation off the replica holds exactly the cache's (index, notification) pairs; feed_replay_values / "
+                      "feed_replay_same_when_differs — with it on, same leaves, and a leaf differs from the cache's only by updates with an equal "
+                      "value (value.Equal is proved transitive, so chains of suppressed updates stay equal). Explicit hypotheses: target named in the "
+                      "prefix; no update index element literally '*'; origin carried in the prefix. The model is tied to the code by the ca "
+                      "correspondence (aliasing generators: shared prefix objects, re-sent notification objects) and, independently of the model, by a "
+                      "replay monitor in the harness that applies the real feed to a view and compares it with Cache.Query at every quiescent point. "
+                      "Target.Reset / Cache.Remove / periodic metadata refresh events are covered by the monitor and C14's theorems, not by feed_simulation.",
+        "level_note": "Trusted: Lean kernel; model validated by the ca correspondence; harness replay monitor; Go runtime. The simulation theorem covers "
+                      "histories of Target.GnmiUpdate; Reset/Remove/metadata-refresh events are checked by the monitor only.",
+        "technique": "Lean 4 proof (simulation between the cache model and a feed-replaying view, by induction over histories) + model/implementation "
+                     "correspondence with aliasing generators + model-independent feed-replay monitor",
     },
 }
 PROP.setdefault("pre", []).append(facts.make_step(['cache.update.writeThenNotify', 'cache.update.conditions']))
